@@ -428,3 +428,125 @@ def main(mod, argv=None):
           % (mod.PROP, args.tier, discharged, len(obligations), ctx.evaluations, len(ctx.nontrivial),
              len(ctx.disagreements), len(ctx.violations), time.time() - ctx.t0))
     return rc
+
+
+# ---------------------------------------------------------------------------------------------
+# Correspondence through Coq itself: the harness prints inputs and the implementation's observable
+# results as Gallina literals into .work/cases/*.v; `Eval vm_compute in (mismatches f cases)` does
+# the comparison inside Coq (Base/CV.v).  No glue code between model and comparison.
+def gz(i):
+    i = int(i)
+    return "(%d)" % i if i < 0 else "%d" % i
+
+
+def gbytes(b):
+    return '(hx "%s")' % bytes(b).hex()
+
+
+def glist(items):
+    return "[" + "; ".join(items) + "]"
+
+
+def gbool(b):
+    return "true" if b else "false"
+
+
+def gopt(x):
+    return "None" if x is None else "(Some %s)" % x
+
+
+def gnat(i):
+    return "%d%%nat" % int(i)
+
+
+def gq(x):
+    from fractions import Fraction
+    x = Fraction(x)
+    return "(%s # %d)" % (gz(x.numerator), x.denominator)
+
+
+def CZ(i):
+    return "(CZ %s)" % gz(i)
+
+
+def CBy(b):
+    return '(CB (hx "%s"))' % bytes(b).hex()
+
+
+def CLs(items):
+    return "(CL [" + "; ".join(items) + "])"
+
+
+def CQ(x):
+    """a rational result as CL [num; den] in lowest terms"""
+    from fractions import Fraction
+    x = Fraction(x)
+    return CLs([CZ(x.numerator), CZ(x.denominator)])
+
+
+def _run_coqc(path, timeout):
+    rc, out = sh(["coqc", "-Q", os.path.join(COQ, "theories"), "PdfV", "-w", "-all", path], timeout,
+                 cwd=os.path.dirname(path))
+    return rc, out
+
+
+def _cases_file(imports, fexpr, chunk, show_idx=None):
+    lines = ["From Coq Require Import ZArith QArith List String Bool.",
+             "From PdfV Require Import Base.CV %s." % " ".join(imports),
+             "Import ListNotations.", "Open Scope Z_scope.", "Open Scope string_scope.",
+             "Definition the_f := %s." % fexpr,
+             "Definition the_cases := ["]
+    lines.append(";\n".join("  (%s, %s)" % (a, w) for a, w in chunk))
+    lines.append("]." if chunk else "].")
+    if show_idx is None:
+        lines.append("Eval vm_compute in (mismatches the_f the_cases).")
+    else:
+        for i in show_idx:
+            lines.append("Eval vm_compute in (show_at the_f the_cases %d%%nat)." % i)
+    return "\n".join(lines) + "\n"
+
+
+def coq_cases(tag, imports, fexpr, cases, shard=400, timeout=900, jobs=None):
+    """cases: list of (input_gallina, expected_cv_gallina).  Returns {index: model_output_string} for the
+    cases on which the model (fexpr : input -> cv) differs from the expected value.  Raises on a Coq error
+    (a model that no longer evaluates is a broken tie, never a pass)."""
+    from concurrent.futures import ThreadPoolExecutor
+    d = os.path.join(WORK, "cases")
+    os.makedirs(d, exist_ok=True)
+    jobs = jobs or int(os.environ.get("VERIF_JOBS", "8"))
+    shards = [(k, cases[k:k + shard]) for k in range(0, len(cases), shard)]
+
+    def run(sh_):
+        k, chunk = sh_
+        path = os.path.join(d, "%s_%d.v" % (tag, k))
+        with open(path, "w") as f:
+            f.write(_cases_file(imports, fexpr, chunk))
+        rc, out = _run_coqc(path, timeout)
+        if rc != 0 or "list nat" not in out:
+            raise RuntimeError("coqc failed on %s: %s" % (path, out[-1500:]))
+        body = out[out.index("="):out.rindex(": list nat")]
+        idx = [int(x) for x in re.findall(r"(\d+)%nat", body)] or [int(x) for x in re.findall(r"\b(\d+)\b", body)]
+        res = {}
+        if idx:
+            with open(path, "w") as f:
+                f.write(_cases_file(imports, fexpr, chunk, show_idx=idx[:8]))
+            rc, out2 = _run_coqc(path, timeout)
+            shown = re.findall(r'=\s*"((?:[^"]|"")*)"%string', out2)
+            for j, i in enumerate(idx):
+                res[k + i] = shown[j] if j < len(shown) else "(model output not rendered)"
+        for ext in (".v", ".vo", ".vok", ".vos", ".glob"):
+            try:
+                os.remove(path[:-2] + ext)
+            except OSError:
+                pass
+        try:
+            os.remove(os.path.join(d, ".%s_%d.aux" % (tag, k)))
+        except OSError:
+            pass
+        return res
+
+    out = {}
+    with ThreadPoolExecutor(max_workers=jobs) as ex:
+        for r in ex.map(run, shards):
+            out.update(r)
+    return out
